@@ -669,15 +669,15 @@ def twin_history(ctx, hseed, out=None):
                 c = build(B)
                 B.do(c)
                 out["dcases"].append(do_step_case(B, limit, before, c))
-            elif kind in ("undo", "redo"):
-                # the History.undo() / redo() step of the control, for SessionsRunner.run_ncase (a HistoryError on
-                # an empty list must leave both lists as they were)
+            elif kind in NAV_KINDS:
+                # the History.undo() / redo() / undo(drop=True) / clear() step of the control, for
+                # SessionsRunner.run_ncase (a HistoryError on an empty list must leave both lists as they were)
                 before = _abs_lists(B)
                 try:
                     vb = fn(B)
                 finally:
                     after = _abs_lists(B)
-                    out.setdefault("ncases", []).append((0 if kind == "undo" else 1, before[0], before[1], after[0], after[1]))
+                    out.setdefault("ncases", []).append((NAV_KINDS[kind], before[0], before[1], after[0], after[1]))
             else:
                 vb = fn(B)
         except Exception as e:  # noqa
@@ -1005,6 +1005,10 @@ def run_objdb_cases(ctx, ocases):
         ctx.traces += 1
 
 
+NAV_KINDS = {"undo": 0, "redo": 1, "undo_drop": 2, "clear": 3}
+NAV_NAMES = {v: k for k, v in NAV_KINDS.items()}
+
+
 def run_nav_cases(ctx, ncases):
     """Every History.undo() / redo() step observed on the never-closed control vs Sessions.hist_undo / hist_redo,
     inside Coq (the steps the theorems C12_sessions_* quantify over besides History.do)."""
@@ -1030,12 +1034,12 @@ def run_nav_cases(ctx, ncases):
         for (i, code) in (pairs[0] if pairs else []):
             nc = ncases[si * shard + i]
             ctx.violation({"kind": "nav-model", "ncase": repr(nc)[:3000], "code": code,
-                           "broken": "correspondence SessionsRunner.run_ncase (Sessions.hist_undo / hist_redo vs History.undo() / redo()); theorems C12_sessions_lose_nothing / C12_sessions_reopen no longer speak about the code"},
-                          "C12 history: model of History.%s() disagrees with the implementation" % ("undo" if nc[0] == 0 else "redo"), no_input=True)
+                           "broken": "correspondence SessionsRunner.run_ncase (Sessions.hist_undo / hist_redo / hist_undo_drop / hist_clear vs History.undo() / redo() / undo(drop=True) / clear()); theorems C12_sessions_lose_nothing / C12_sessions_reopen no longer speak about the code"},
+                          "C12 history: model of History %s disagrees with the implementation" % NAV_NAMES[nc[0]], no_input=True)
     for nc in ncases:
         ctx.traces += 1
         ctx.case(("nav-step", repr(nc)), nontrivial=(nc[1], nc[2]) != (nc[3], nc[4]))
-        ctx.count("nav_step:" + ("undo" if nc[0] == 0 else "redo") + (":empty_list" if (nc[1], nc[2]) == (nc[3], nc[4]) else ""))
+        ctx.count("nav_step:" + NAV_NAMES[nc[0]] + (":empty_list" if (nc[1], nc[2]) == (nc[3], nc[4]) else ""))
     ctx.extra["persist_undo_redo_steps"] = len(ncases)
     ctx.extra["undo_redo_steps_on_an_empty_list"] = empty
 
